@@ -22,6 +22,7 @@ class IterSpec:
     descr: str = ''
     ordered: bool = True
     adv: Any = None          # for enumerate(start=<index>): captured base index entry
+    listsym: Any = None      # heap symbol of the list being iterated, if any
 
 
 def _Raise():
@@ -410,6 +411,8 @@ class ModelMixin(ModelMixin2, ModelMixin3):
         if isinstance(container, Ref) and container.kind == 'list':
             le: ListE = st.get(container.sym)
             if le.hi == 0:
+                if isinstance(item, Ref) and item.kind == 'elem':
+                    st.facts.add(('notin', item.sym, container.sym))
                 return [(False, st)]
             if le.kind == 'lit' and all(isinstance(x, Const) for x in le.items) and isinstance(item, Const):
                 return [(item in le.items, st)]
@@ -417,6 +420,8 @@ class ModelMixin(ModelMixin2, ModelMixin3):
             return [(self.exc('TypeError', st, node, "argument of type 'NoneType' is not iterable"), st)]
         s2 = st.copy()
         self.stats['forks'] += 1
+        if isinstance(container, Ref) and container.kind == 'list' and isinstance(item, Ref) and item.kind == 'elem':
+            s2.facts.add(('notin', item.sym, container.sym))
         self.hook('in-fork', st, node, item=item, container=container, taken=True)
         self.hook('in-fork', s2, node, item=item, container=container, taken=False)
         return [(True, st), (False, s2)]
@@ -654,8 +659,13 @@ class ModelMixin(ModelMixin2, ModelMixin3):
                 return outs
         self.hook('remove', st, node, parent=p, node_=n)
         # aliases: other looked-up nodes that may be this very node are now possibly detached
+        skip = set()
+        src_list = (st.mon.get('sym:fromlist') or {}).get(n.sym)
+        if src_list is not None and src_list in st.heap and st.get(src_list).distinct:
+            # the templates of a list of pairwise distinct nodes stand for the *other* elements
+            skip = {x.sym for x in st.get(src_list).items if isinstance(x, Ref)}
         for sym, e in list(st.heap.items()):
-            if sym != n.sym and isinstance(e, ElemE) and e.attached is True and self.may_alias(sym, n.sym, st) \
+            if sym != n.sym and sym not in skip and isinstance(e, ElemE) and e.attached is True and self.may_alias(sym, n.sym, st) \
                     and e.born < self._now_marker(st, n.sym):
                 st.put(sym, replace(e, attached='maybe'))
         # index typestate
@@ -678,6 +688,8 @@ class ModelMixin(ModelMixin2, ModelMixin3):
         return st.serial + 1
 
     def idx_after_remove(self, e: IdxE, n_sym, st: State) -> IdxE:
+        if e.succ is not None:
+            e = replace(e, succ=None)
         if e.kind == 'end':
             return replace(e, slack=min(e.slack + 1, 3))
         if e.kind == 'fresh':
@@ -694,10 +706,10 @@ class ModelMixin(ModelMixin2, ModelMixin3):
 
     def idx_after_insert(self, e: IdxE, at: Optional[IdxE], st: State) -> IdxE:
         """Effect on another live index of the same parent of an insertion at *at*."""
+        if e.succ is not None:
+            e = replace(e, succ=None)
         if e.kind == 'end':
-            if e.slack - 1 < 0:
-                return replace(e, kind='stale', why='a node was inserted after this end position was computed')
-            return replace(e, slack=e.slack - 1)
+            return replace(e, slack=max(e.slack - 1, -3))
         if e.kind in ('fresh', 'slot'):
             if at is not None and at.kind == 'end' and at.delta == 0 and at.slack >= 0:
                 return e        # appended behind every existing child
@@ -737,7 +749,8 @@ class ModelMixin(ModelMixin2, ModelMixin3):
             if ie.kind == 'end' and ie.slack > 0:
                 st.put(idx.sym, replace(ie, slack=ie.slack - 1))
             elif ie.kind in ('fresh', 'slot', 'end'):
-                st.put(idx.sym, replace(ie, kind='fresh', anchor=n.sym, parent=p.sym, slack=0))
+                succ = (ie.kind, ie.anchor, ie.slack) if ie.delta == 0 else None
+                st.put(idx.sym, replace(ie, kind='fresh', anchor=n.sym, parent=p.sym, slack=0, succ=succ))
         self.attach(p, n, st)
         self.log_mut(st, ('insert', p.sym, n.sym, idx.sym if isinstance(idx, Ref) else None))
         return [(NoneV(), st)]
